@@ -582,7 +582,6 @@ string check_dump(const DumpCase& c, const string& out) {
   uint64_t expect_next = first_line;  // smallest line address not yet accounted for
   bool done = false;
   size_t pos = 0;
-  size_t width_seen = 0;
   while (pos < out.size()) {
     size_t nl = out.find('\n', pos);
     string raw = out.substr(pos, nl - pos);
@@ -602,8 +601,6 @@ string check_dump(const DumpCase& c, const string& out) {
     for (uint64_t a = L.addr; a >= 16; a >>= 4) natural++;
     if (min_digits && (int)L.addr_digits != (natural > min_digits ? natural : min_digits))
       return fail("format_data:address-width", vf::fmt("address %s printed with %zu digits, OFFSET_*_BITS flag asks for %d", vf::show(raw.substr(0, 20)).c_str(), L.addr_digits, min_digits));
-    if (width_seen && width_seen != L.addr_digits && natural <= (int)width_seen) return fail("format_data:address-width", "address column width changes between lines: " + vf::show(raw.substr(0, 20)));
-    width_seen = L.addr_digits;
     if (L.stray_red) return fail("format_data:highlight", "address, separator or blank field is highlighted in line " + vf::show(raw));
     // hex + ASCII columns
     for (int i = 0; i < 16; i++) {
@@ -625,28 +622,35 @@ string check_dump(const DumpCase& c, const string& out) {
         if (L.ascii_red[i] != want_red) return fail("format_data:highlight", vf::fmt("ASCII character at address %" PRIX64 " is %shighlighted but %s the previous buffer", a, L.ascii_red[i] ? "" : "not ", differs ? "differs from" : "equals"));
       }
     }
-    // float / double columns: blank unless the whole field is inside the data, else %12.5g of the value
+    // float / double columns: blank unless the whole field is inside the data, else a rendering of the value
+    // (read in the byte order the flags document) that is numerically right to 5 significant digits
     auto field_check = [&](const string* col, int count, int fsize) -> string {
       for (int f = 0; f < count; f++) {
         uint64_t a0 = L.addr + (uint64_t)(f * fsize), a1 = a0 + (uint64_t)(fsize - 1);
         bool valid = a0 >= L.addr && a1 >= a0 && in_range(a0) && in_range(a1);
-        string want(13, ' ');
-        if (valid) {
-          uint8_t b[8];
-          for (int k = 0; k < fsize; k++) b[k] = c.data[a0 - c.start + (big ? (fsize - 1 - k) : k)];
-          char buf[64];
-          if (fsize == 4) {
-            float v;
-            memcpy(&v, b, 4);
-            snprintf(buf, sizeof(buf), " %12.5g", v);
-          } else {
-            double v;
-            memcpy(&v, b, 8);
-            snprintf(buf, sizeof(buf), " %12.5g", v);
-          }
-          want = buf;
+        const char* kind = fsize == 4 ? "float" : "double";
+        bool blank = col[f].find_first_not_of(' ') == string::npos;
+        if (!valid) {
+          if (!blank) return vf::fmt("%s field at address %" PRIX64 " shows %s although not all of its bytes are inside the data", kind, a0, vf::show(col[f]).c_str());
+          continue;
         }
-        if (col[f] != want) return vf::fmt("%s field at address %" PRIX64 " shows %s, expected %s", fsize == 4 ? "float" : "double", a0, vf::show(col[f]).c_str(), vf::show(want).c_str());
+        uint8_t b[8];
+        for (int k = 0; k < fsize; k++) b[k] = c.data[a0 - c.start + (big ? (fsize - 1 - k) : k)];
+        double v;
+        if (fsize == 4) {
+          float fv;
+          memcpy(&fv, b, 4);
+          v = fv;
+        } else memcpy(&v, b, 8);
+        bool ok;
+        if (blank) ok = false;
+        else if (isnan(v)) ok = col[f].find("nan") != string::npos || col[f].find("NAN") != string::npos;
+        else {
+          char* end = nullptr;
+          double g = strtod(col[f].c_str(), &end);
+          ok = end && *end == 0 && ((isinf(v) || v == 0) ? (g == v) : (fabs(g - v) <= 1e-4 * fabs(v)));
+        }
+        if (!ok) return vf::fmt("%s field at address %" PRIX64 " shows %s, the bytes there are the value %.6g", kind, a0, vf::show(col[f]).c_str(), v);
       }
       return "";
     };
